@@ -1,20 +1,7 @@
 From Coq Require Import List String Ascii Bool Arith Lia Sorting.Sorted.
 Import ListNotations.
-Require Import SDJ.Json SDJ.Model2 SDJ.ATree SDJ.T2a SDJ.T2b SDJ.T2c SDJ.T2d SDJ.T2e SDJ.T2f SDJ.T2g.
+Require Import SDJ.Json SDJ.Model2 SDJ.ATree SDJ.T2a SDJ.T2b SDJ.T2c SDJ.T2d SDJ.T2e SDJ.T2f SDJ.T2g SDJ.Restore2.
 Local Open Scope string_scope.
-
-(* ---------- model of remove_all_digests ---------- *)
-Definition is_placeholder (j : json) : bool :=
-  match j with
-  | JObj kvs => match obj_get "..." kvs with Some (JStr _) => true | _ => false end
-  | _ => false end.
-
-Fixpoint strip (j : json) : json :=
-  match j with
-  | JArr xs => JArr (flat_map (fun x => if is_placeholder x then [] else [strip x]) xs)
-  | JObj kvs => JObj (flat_map (fun kv => let '(k, v) := kv in if String.eqb k "_sd" then [] else [(k, strip v)]) kvs)
-  | _ => j
-  end.
 
 Lemma flat_map_map' {A B C} (f : B -> list C) (g : A -> B) l : flat_map f (map g l) = flat_map (fun x => f (g x)) l.
 Proof. induction l; cbn; congruence. Qed.
